@@ -342,6 +342,26 @@ func famStackOps(ep evmkit.Epoch) []Case {
 			}
 		}
 	}
+	// the stack limit: DUPn / SWAPn / PUSH1 on stacks of 1023 and 1024 items, followed by an instruction
+	// that pops (an overflow that is not refused at the instruction itself would go unnoticed otherwise)
+	// or by STOP
+	for _, depth := range []int{1023, 1024} {
+		base := new(asm)
+		for i := 0; i < depth; i++ {
+			base.op(opPUSH1, byte(1+i%200))
+		}
+		var ops []byte
+		for n := 1; n <= 16; n++ {
+			ops = append(ops, byte(0x80+n-1), byte(0x90+n-1))
+		}
+		ops = append(ops, opPC, opMSIZE)
+		for _, o := range ops {
+			for _, tail := range [][]byte{{opSTOP}, {opPOP, opSTOP}, {opPUSH1, 0, opMSTORE, opSTOP}, {0x01 /* ADD */, opSTOP}} {
+				code := append(append(append([]byte{}, base.bytes()...), o), tail...)
+				out = append(out, Case{Family: "stack", Code: code, Gas: 1000000, Ep: ep})
+			}
+		}
+	}
 	return out
 }
 
